@@ -12,7 +12,7 @@
 (*   out : "boundary" (between sequences; the stream may end here), "open" (inside a         *)
 (*         sequence), "raises" (a read needed state that is not there), "eof" (ran out of    *)
 (*         bytes), "complete" (parsed to completion: premise of C06)                         *)
-EXTENDS Integers, Sequences, FiniteSets, TLC
+EXTENDS Integers, Sequences, FiniteSets, TLC, BigNat
 
 Start == [sh |-> FALSE, ld |-> FALSE, hq |-> FALSE, out |-> "boundary"]
 Live(st) == st.out \in {"open", "boundary"}
@@ -61,6 +61,41 @@ WellFormed(us) ==
        /\ (us[i].k = "FRAGN" /\ us[i].prof = "ld" => InSeqBefore(us, i, IsLDtp))
        /\ (us[i].k = "FRAGN" /\ us[i].prof = "hq" => InSeqBefore(us, i, IsHQtp))
        /\ (us[i].k = "FRAGN" /\ us[i].prof = "none" => InSeqBefore(us, i, IsTP))
+
+(* ---- exp-Golomb codes of huge values ------------------------------------------------------ *)
+(* (A.4.3) read_uint:  value = 1; while read_bit() = 0: value = 2 * value + read_bit(); return    *)
+(* value - 1.  A code with k data bits b_1 .. b_k is the bit string  0 b_1 0 b_2 ... 0 b_k 1  and    *)
+(* stands for (1 b_1 ... b_k)_2 - 1: any k is parseable, so values far beyond 32 / 48 / 53 / 64      *)
+(* bits are part of the premise of C06 wherever a variable-length field or a coefficient is read.   *)
+(* Classes: the number of data bits and their pattern.  Values are little-endian base-2^15 limbs    *)
+(* (BigNat), as TLC integers are 32 bit.                                                            *)
+(*   zeros : value + 1 = 2^k             ones  : value + 2 = 2^(k+1)  (every data bit set)          *)
+(*   alt   : 1 0 1 0 ...                 ones0 : every data bit set but the last                    *)
+BigK == {31, 47, 48, 53, 63, 64, 100}
+BigPat == {"zeros", "ones", "alt", "ones0"}
+BigClasses == [k : BigK, pat : BigPat]
+DataBit(c, i) == CASE c.pat = "zeros" -> 0
+                   [] c.pat = "ones"  -> 1
+                   [] c.pat = "alt"   -> i % 2
+                   [] OTHER           -> IF i = c.k THEN 0 ELSE 1
+BigCode(c) == [j \in 1..(2 * c.k + 1) |->
+                 IF j = 2 * c.k + 1 THEN 1 ELSE IF j % 2 = 1 THEN 0 ELSE DataBit(c, j \div 2)]
+(* value + 1 = (1 b_1 ... b_k)_2, limb by limb: bit p (p = 0 is the least significant) is b_(k-p) *)
+NBit(c, p) == IF p = c.k THEN 1 ELSE IF p > c.k THEN 0 ELSE DataBit(c, c.k - p)
+LimbOf(c, j) == LET B(t) == NBit(c, 15 * (j - 1) + t) * (2 ^ t) IN
+                B(0) + B(1) + B(2) + B(3) + B(4) + B(5) + B(6) + B(7) + B(8) + B(9) + B(10) + B(11) + B(12) + B(13) + B(14)
+BigN(c) == [j \in 1..((c.k \div 15) + 1) |-> LimbOf(c, j)]
+BigValue(c) == BSub(BigN(c), <<1>>)
+(* the reader's loop (A.4.3) on such a bit string: n times "0, data bit", then the closing 1; the    *)
+(* i-th data bit read becomes binary digit n - i of value + 1, below the leading 1 at position n     *)
+ReadsAs(bits, n, c) ==
+  /\ Len(bits) = 2 * n + 1 /\ bits[2 * n + 1] = 1 /\ \A i \in 1..n : bits[2 * i - 1] = 0
+  /\ NBit(c, n) = 1 /\ \A i \in 1..n : bits[2 * i] = NBit(c, n - i)
+  /\ \A p \in (n + 1)..(15 * Len(BigN(c)) - 1) : NBit(c, p) = 0
+HasBig(u) == "big" \in DOMAIN u
+(* what the reader must find in a description for the units of a history: the huge values, in order *)
+BigValuesOf(us) == LET idx == {i \in 1..Len(us) : HasBig(us[i])} IN
+                   {BigValue(us[i].big) : i \in idx}
 
 (* D5: the one place where the implementation is known to deviate from the design: a padding *)
 (* / auxiliary unit whose next_parse_offset is below 13 parses (empty payload) but its       *)
